@@ -105,7 +105,9 @@ pub enum HostOutcome<R> {
 pub enum JobEnd {
     /// `execute_blocking` returned (or panicked) on every host.
     Returned,
-    /// Quiescence certificate: every live engine thread parked, no event for three snapshots.
+    /// Quiescence certificate: every live engine thread parked, no event for three snapshots,
+    /// and (from /proc) every thread of the process asleep in a wait only another party can end,
+    /// with no CPU consumed in between.
     Deadlocked,
     /// Watchdog fired while threads were still running: nothing can be concluded.
     TimedOut,
@@ -212,6 +214,57 @@ fn all_parked(census: &[ThreadSnap]) -> bool {
         })
 }
 
+/// Process-level side of the quiescence certificate, independent of the hooks: every other
+/// thread of this process is sleeping in a system call that only another party can end (futex,
+/// accept, read, poll...), none is runnable, in uninterruptible I/O (page-fault stalls on a
+/// loaded machine) or in a timed sleep (connection back-off), and none has consumed CPU since
+/// the previous snapshot. Returns the per-thread CPU ticks for the next comparison, or None if
+/// some thread is not quiescent. If /proc cannot be read the hook-level census decides alone.
+fn proc_quiescent(prev: &mut Option<Vec<(u64, u64)>>) -> bool {
+    if cfg!(miri) {
+        return true;
+    }
+    let me: Option<u64> = std::fs::read_link("/proc/thread-self")
+        .ok()
+        .and_then(|p| p.file_name().and_then(|n| n.to_str().and_then(|n| n.parse().ok())));
+    let Ok(dir) = std::fs::read_dir("/proc/self/task") else { return true };
+    let mut now = Vec::new();
+    for e in dir.flatten() {
+        let Some(tid) = e.file_name().to_str().and_then(|n| n.parse::<u64>().ok()) else { continue };
+        if Some(tid) == me {
+            continue;
+        }
+        let Ok(stat) = std::fs::read_to_string(e.path().join("stat")) else { continue };
+        // pid (comm) state ppid ... utime(14) stime(15): split after the last ')'
+        let Some(rest) = stat.rfind(')').map(|i| &stat[i + 1..]) else { continue };
+        let f: Vec<&str> = rest.split_whitespace().collect();
+        if f.len() < 13 {
+            continue;
+        }
+        if f[0] != "S" {
+            *prev = None;
+            return false;
+        }
+        let cpu = f[11].parse::<u64>().unwrap_or(0) + f[12].parse::<u64>().unwrap_or(0);
+        let sys = std::fs::read_to_string(e.path().join("syscall")).unwrap_or_default();
+        let nr = sys.split_whitespace().next().unwrap_or("").to_string();
+        // futex, accept, accept4, read, recvfrom, recvmsg, poll, ppoll, epoll_wait, epoll_pwait
+        const WAITING: [&str; 10] = ["202", "43", "288", "0", "45", "47", "7", "271", "232", "281"];
+        if !sys.is_empty() && !WAITING.contains(&nr.as_str()) {
+            *prev = None;
+            return false;
+        }
+        now.push((tid, cpu));
+    }
+    now.sort();
+    let same = match prev {
+        Some(p) => *p == now,
+        None => true,
+    };
+    *prev = Some(now);
+    same
+}
+
 /// Run one job. `build` is called once per host, on that host's thread, with the host's context;
 /// it builds the pipeline and returns a value (typically the sink handles); the context is then
 /// executed and `finish` turns the handles into the host's result after `execute_blocking`
@@ -267,6 +320,7 @@ where
         let mut last_events = o.events.load(Ordering::SeqCst);
         let mut last_progress = Instant::now();
         let mut quiet_snaps = 0u32;
+        let mut cpu_prev: Option<Vec<(u64, u64)>> = None;
         while got < n {
             match rx.recv_timeout(Duration::from_millis(250)) {
                 Ok((h, out)) => {
@@ -285,7 +339,7 @@ where
                         // no event for `quiet`: take a snapshot; three consecutive all-parked
                         // snapshots (>= 1 s apart, no event in between) make a certificate
                         let snap = o.snapshot();
-                        if all_parked(&snap) {
+                        if all_parked(&snap) && proc_quiescent(&mut cpu_prev) {
                             quiet_snaps += 1;
                             census = snap;
                             if quiet_snaps >= 3 {
@@ -295,6 +349,7 @@ where
                             std::thread::sleep(Duration::from_millis(1000));
                         } else {
                             quiet_snaps = 0;
+                            cpu_prev = None;
                         }
                     }
                     if started.elapsed() > opts.watchdog {
